@@ -257,6 +257,56 @@ def flows_unchanged(fn, e, source_callee):
     return False
 
 
+def vector_value_sizes(fn, e, depth=0):
+    """Size expressions of a vector-valued expression, one per alternative: vector(n) -> n, vector(p, p + n) -> n, a copy/move of such a
+    value, `c ? A : B` -> both.  None when some alternative cannot be read."""
+    x = strip_all_casts(e)
+    if depth > 4 or not isinstance(x, dict):
+        return None
+    if x.get("k") == "cond":
+        a, b = vector_value_sizes(fn, x["a"], depth + 1), vector_value_sizes(fn, x["b"], depth + 1)
+        return None if a is None or b is None else a + b
+    if x.get("k") == "construct" and (x.get("rec") or "").startswith("std::vector"):
+        args = [a for a in x.get("args", []) if not (strip_all_casts(a).get("k") == "construct" and (strip_all_casts(a).get("rec") or "").startswith("std::allocator"))]
+        if len(args) == 1 and (strip_all_casts(args[0]).get("t") or {}).get("k") in ("int",):
+            return [args[0]]
+        if len(args) == 1:
+            return vector_value_sizes(fn, args[0], depth + 1)  # copy / move of a vector value
+        if len(args) == 2 and (strip_all_casts(args[0]).get("t") or {}).get("k") == "ptr":
+            ln = range_length(fn, args[0], args[1])
+            return None if ln is None else [ln]
+        if len(args) == 2 and (strip_all_casts(args[0]).get("t") or {}).get("k") == "int":
+            return [args[0]]
+    return None
+
+
+def reduce_min(fn, e, fs):
+    """`std::min(A, K)` (also through a single-definition local) where the facts fs live at the use already say A <= K is A: a clamp that
+    cannot bind.  Returns the operand node, or e unchanged."""
+    x = strip_all_casts(e)
+    if x.get("k") == "ref" and x.get("dk") == "local":
+        ds = local_defs(fn).get(x["decl"], [])
+        if len(ds) != 1:
+            return e
+        x = strip_all_casts(ds[0])
+    if not (x.get("k") == "call" and callee_name(x) == "std::min" and len(x.get("args", [])) == 2):
+        return e
+    a, b = x["args"]
+    for keep, other in ((a, b), (b, a)):
+        ck, co = xcanon(fn, keep), xcanon(fn, other)
+        cv = const_value(strip_all_casts(expand(fn, other)))
+        for f in fs:
+            if f[0] != "cmp":
+                continue
+            for l, r, op in ((f[4], f[5], f[2]), (f[5], f[4], _flip_op(f[2]))):
+                if xcanon(fn, l) != ck:
+                    continue
+                cr = const_value(strip_all_casts(expand(fn, r)))
+                if op in ("<=", "<", "==") and (xcanon(fn, r) == co or (cv is not None and cr is not None and (cr <= cv if op != "<" else cr - 1 <= cv))):
+                    return keep
+    return e
+
+
 def lossy_step(fn, e, source_callee):
     """Companion of flows_unchanged: on the way from the result of `source_callee` to expression e, an integer conversion (explicit, implicit,
     or through the declared type of a local) to a type that cannot hold every value of the getter's return type — narrower, or of the same
